@@ -126,7 +126,8 @@ def run(ctx):
                 "write of half the bytes then ENOSPC, read/getdents: EIO, rename/link/mkdir: ENOSPC/EACCES/EIO, unlink: "
                 "EACCES/EIO, stat family: EACCES/EIO, fallocate: ENOSPC/EIO, mmap: ENOMEM/EACCES, ...). Judged: no "
                 "panic/hang, truthful Ok, old-or-new after a failed write, bystanders, content tree, bucket grammar, "
-                "and a fault-free re-execution of the same call. Thorough adds seeded fault pairs. distinct = "
+                "and a fault-free re-execution of the same call. Write operations also get consecutive pairs (call n fails, and so "
+                "does the first, second or third call the code then makes). Thorough adds seeded fault pairs. distinct = "
                 "(operation, mode, call index, syscall, errno)")
     ctx.assumptions = ["close() is not injected (Rust ignores its result)", "ENOENT is a legitimate 'absent', not a fault",
                        "a supervisor watchdog firing is a hang only if it reproduces three times"]
@@ -171,6 +172,12 @@ def run(ctx):
             for en in errnos_for(e):
                 jobs.append((e["n"], e["name"], en, e.get("count", 0)))
             syscalls_reached.add(e["name"])
+        if sc.meta["kind"].startswith("write") and (sc.mode == "sync@astd" or not ctx.quick):
+            # the recovery path itself fails: call n fails and so does whatever the code does next (call n+1 of THAT run)
+            for e in vis:
+                ens = [z for z in errnos_for(e) if z != "short"]
+                if ens:
+                    jobs.append(((e["n"], e["n"] + 1), f"{e['name']}+next", (ens[0], E["ENOSPC"] if e["n"] % 2 else E["EIO"]), 0))
         if not ctx.quick:
             # seeded fault pairs
             rr = ctx.rng
@@ -205,39 +212,60 @@ def run(ctx):
                 cache = crash.instantiate(tdir, rdir)
             return (job, rdir, cache, res, tries, extra)
 
-        for (job, rdir, cache, res, tries, extra) in crash.pmap(one, jobs):
-            n, name, en, _count = job
-            injected = [e for e in res.events if e.get("injected")]
-            ctx.count("injected_runs")
-            ctx.count(f"inject[{name}:{en}]")
-            ctx.case(distinct_key=(sc.name, sc.mode, n, name, str(en)),
-                     sample={"operation": sc.name, "mode": sc.mode, "call": n, "syscall": name, "errno": en,
-                             "result": ev.variant((res.responses(0) or [{}])[0])}
-                     if ctx.counters["evaluations"] % 97 == 0 else None)
-            sig = f"{sc.name}|{sc.mode}|{name}:{en}"
-            det = {"operation": sc.name, "mode": sc.mode, "call": n, "syscall": name, "errno": en,
-                   "steps": [["sync@astd", q] for q in sc.prep] + [[sc.mode, sc.req]], "sysmon_argv": res.argv[:14],
-                   "injected_events": [f"{e['name']} {e['paths'] or e['fd_path']}" for e in injected][:3]}
-            if res.timed_out:
-                ctx.violation(sig + "|hang", f"{sc.name} in {sc.mode} did not terminate (3 runs x 20 s) when {name} fails with {en}", det)
+        base_names = [e["name"] for e in vis]
+        second = []
+
+        def handle(results, collect, sc=sc, base_names=base_names):
+            for (job, rdir, cache, res, tries, extra) in results:
+                n, name, en, _count = job
+                if collect is not None and not isinstance(n, tuple) and en != "short" and sc.meta["kind"].startswith("write") \
+                        and (sc.mode == "sync@astd" or not ctx.quick) and not res.timed_out:
+                    # did the fault send the code down a path the fault-free run never takes (a fallback, a clean-up)?
+                    # Then every call of that path gets its own fault too: the recovery must not leave damage either
+                    later = [e for e in res.visible if e["n"] > n]
+                    if later and [e["name"] for e in later] != base_names[n:]:
+                        for e2 in later[:14]:
+                            ens2 = [z for z in errnos_for(e2) if z != "short"]
+                            if ens2:
+                                collect.append(((n, e2["n"]), f"{name}+{e2['name']}", (en, ens2[0]), 0))
+                injected = [e for e in res.events if e.get("injected")]
+                ctx.count("injected_runs")
+                ctx.count(f"inject[{name}:{en}]")
+                ctx.case(distinct_key=(sc.name, sc.mode, n, name, str(en)),
+                         sample={"operation": sc.name, "mode": sc.mode, "call": n, "syscall": name, "errno": en,
+                                 "result": ev.variant((res.responses(0) or [{}])[0])}
+                         if ctx.counters["evaluations"] % 97 == 0 else None)
+                sig = f"{sc.name}|{sc.mode}|{name}:{en}"
+                det = {"operation": sc.name, "mode": sc.mode, "call": n, "syscall": name, "errno": en,
+                       "steps": [["sync@astd", q] for q in sc.prep] + [[sc.mode, sc.req]], "sysmon_argv": res.argv[:14],
+                       "injected_events": [f"{e['name']} {e['paths'] or e['fd_path']}" for e in injected][:3]}
+                if res.timed_out:
+                    ctx.violation(sig + "|hang", f"{sc.name} in {sc.mode} did not terminate (3 runs x 20 s) when {name} fails with {en}", det)
+                    ctx.rm(rdir)
+                    continue
+                rs = res.responses(0)
+                if not rs:
+                    ctx.violation(sig + "|died", f"{sc.name} in {sc.mode}: process died (exit {res.final and res.final['exit']}) when {name} "
+                                  f"fails with {en}: {res.stderr[-300:]}", det)
+                    ctx.rm(rdir)
+                    continue
+                r = rs[0]
+                det["response"] = r
+                if not injected and en != "short":
+                    ctx.count("fault_point_not_reached")
+                if ev.is_panic(r):
+                    ctx.violation(sig + "|panic", f"{sc.name} in {sc.mode} panicked when {name} fails with {en}: {ev.brief(r)}", det)
+                else:
+                    ctx.count("surfaced_as_Err" if not ev.is_ok(r) else "truthful_Ok_candidates")
+                    judge(ctx, sc, cache, r, sig, det, extra, short=(en == "short"), name=name)
                 ctx.rm(rdir)
-                continue
-            rs = res.responses(0)
-            if not rs:
-                ctx.violation(sig + "|died", f"{sc.name} in {sc.mode}: process died (exit {res.final and res.final['exit']}) when {name} "
-                              f"fails with {en}: {res.stderr[-300:]}", det)
-                ctx.rm(rdir)
-                continue
-            r = rs[0]
-            det["response"] = r
-            if not injected and en != "short":
-                ctx.count("fault_point_not_reached")
-            if ev.is_panic(r):
-                ctx.violation(sig + "|panic", f"{sc.name} in {sc.mode} panicked when {name} fails with {en}: {ev.brief(r)}", det)
-            else:
-                ctx.count("surfaced_as_Err" if not ev.is_ok(r) else "truthful_Ok_candidates")
-                judge(ctx, sc, cache, r, sig, det, extra, short=(en == "short"), name=name)
-            ctx.rm(rdir)
+
+        handle(crash.pmap(one, jobs), second)
+        known_jobs = set(jobs)
+        second = [j for j in dict.fromkeys(second) if j not in known_jobs]
+        if second:
+            ctx.count("second_level_fault_jobs", len(second))
+            handle(crash.pmap(one, second), None)
         ctx.rm(work)
     ctx.extra["distinct_syscalls_reached"] = sorted(syscalls_reached)
     ctx.extra["scenarios"] = [f"{s.name}@{s.mode}" for s in scs]
